@@ -132,7 +132,7 @@ def alternative : Bytes :=
 /-- a hand-checked member of `Conf` that is not canonical: a one-element bool list with the long list header -/
 example : Conf (.slice .bool) (.list (mk [.bool true])) [0xF2, 0x01, 0x01] := by
   simp only [Conf, isU8, Bool.false_eq_true, if_false]
-  exact ⟨[0xF2, 0x01], [[1]], .long [0x01] ⟨.last 1 (by omega), by simp⟩, .cons ⟨true, rfl, rfl⟩ .nil, rfl⟩
+  exact ⟨[0xF2, 0x01], [[1]], .long 2 [0x01] (Or.inl rfl) ⟨.last 1 (by omega), by simp⟩, .cons ⟨true, rfl, rfl⟩ .nil, rfl⟩
 #guard Spec.Thrift.encode .compact (.slice .bool) (.list (mk [.bool true])) == [0x12, 0x01]
 #guard un true (.slice .bool) [0xF2, 0x01, 0x01] == "ok:l 1 b1" && un true (.slice .bool) [0x12, 0x01] == "ok:l 1 b1"
 
@@ -162,22 +162,49 @@ def T2 : Ty := .struct (.cons "L" (tg "1") false (.slice .str) .nil)
 #guard Spec.Thrift.encode .compact .f64 (.float 0x3FF0000000000000) == [0, 0, 0, 0, 0, 0, 0xF0, 0x3F] &&
   un true .f64 [0, 0, 0, 0, 0, 0, 0xF0, 0x3F] == "ok:f 61503"
 
-/-! ### observations on bool codes (outside the specification text implemented in `Enc.Spec.Thrift`)
+/-! ### bool type nibble 1 in list / set / map headers
 
-The specification as implemented writes a bool ELEMENT as `1` / `0` and a bool element TYPE nibble as `2`. The reader
-accepts more for elements (every non-zero byte is true) and for list / set headers (type nibble `1` is read as bool),
-but NOT for map headers: -/
--- element value 2 (the FALSE code of field headers, which some writers also use for elements) reads as TRUE
-#guard un true (.slice .bool) [0x12, 0x02] == "ok:l 1 b1"
--- list header with element-type nibble 1 (TRUE) instead of 2: accepted (decode.go maps TRUE to BOOL for lists and sets)
+The specification text implemented in `Enc.Spec.Thrift` announces a bool element / key / value type as nibble `2`;
+writers with a single type table send `1` (the TRUE code of field headers) and readers must accept both. `ElemCode`
+admits both, so these encodings are members of `Conf` and `accept_unmarshal` covers them. (The map cases were rejected
+with `typeMismatch` — non-strict: the map dropped, its entries left unread — before `decodeFuncMapOf` was repaired to
+translate TRUE → BOOL like the list and set decoders.) -/
+def mb : Ty := .map .bool (.int .i8)
+def mbv : Val := .map (mk [.bool true, .int 5])
+def bm : Ty := .map (.int .i8) .bool
+def bmv : Val := .map (mk [.int 5, .bool true])
+#guard U mb mbv && U bm bmv
+#guard Spec.Thrift.encode .compact mb mbv == [0x01, 0x23, 0x01, 0x05]
+#guard un true mb [0x01, 0x23, 0x01, 0x05] == "ok:m 1 b1 i 5"
+-- KEY type nibble 1
+#guard un true mb [0x01, 0x13, 0x01, 0x05] == "ok:m 1 b1 i 5" && un false mb [0x01, 0x13, 0x01, 0x05] == "ok:m 1 b1 i 5"
+-- VALUE type nibble 1
+#guard un true bm [0x01, 0x31, 0x05, 0x01] == "ok:m 1 i 5 b1" && un false bm [0x01, 0x31, 0x05, 0x01] == "ok:m 1 i 5 b1"
+-- list header with element-type nibble 1
 #guard un true (.slice .bool) [0x11, 0x01] == "ok:l 1 b1"
--- map header with KEY type nibble 1 instead of 2 (what writers that use one table for field and element types send):
--- `typeMismatch` in strict mode; in non-strict mode the map is dropped and its entries are left unread in the stream
-#guard un true (.map .bool (.int .i8)) [0x01, 0x23, 0x01, 0x05] == "ok:m 1 b1 i 5"
-#guard un true (.map .bool (.int .i8)) [0x01, 0x13, 0x01, 0x05] == "err:typeMismatch"
-#guard un false (.map .bool (.int .i8)) [0x01, 0x13, 0x01, 0x05] == "err:trailing"
--- same for the VALUE type nibble
-#guard un true (.map (.int .i8) .bool) [0x01, 0x31, 0x05, 0x01] == "err:typeMismatch"
+
+/-- the key-nibble-1 encoding is conformant … -/
+theorem mb_conf : Conf mb mbv [0x01, 0x13, 0x01, 0x05] := by
+  simp only [mb, Conf, Spec.Thrift.isUnit, Bool.false_eq_true, if_false]
+  refine ⟨[0x01, 0x13], [[0x01, 0x05]], ?_, ?_, rfl⟩
+  · exact MapHdr.nonempty 1 3 [0x01] (Or.inr ⟨rfl, rfl⟩) (Or.inl rfl) (by decide) ⟨.last 1 (by omega), by simp⟩
+  · exact .cons ⟨[1], [5], ⟨true, rfl, rfl⟩, ⟨5, rfl, by simp [IntKind.bits]; rfl⟩, rfl⟩ .nil
+/-- … and so is the value-nibble-1 encoding -/
+theorem bm_conf : Conf bm bmv [0x01, 0x31, 0x05, 0x01] := by
+  simp only [bm, Conf, Spec.Thrift.isUnit, Bool.false_eq_true, if_false]
+  refine ⟨[0x01, 0x31], [[0x05, 0x01]], ?_, ?_, rfl⟩
+  · exact MapHdr.nonempty 3 1 [0x01] (Or.inl rfl) (Or.inr ⟨rfl, rfl⟩) (by decide) ⟨.last 1 (by omega), by simp⟩
+  · exact .cons ⟨[5], [1], ⟨5, rfl, by simp [IntKind.bits]; rfl⟩, ⟨true, rfl, rfl⟩, rfl⟩ .nil
+/-- hence accepted, as instances of the general theorem -/
+example (strict : Bool) : unmarshal .compact strict mb [0x01, 0x13, 0x01, 0x05] = .ok (norm mb mbv) :=
+  accept_unmarshal strict mb mbv (by decide) _ mb_conf
+example (strict : Bool) : unmarshal .compact strict bm [0x01, 0x31, 0x05, 0x01] = .ok (norm bm bmv) :=
+  accept_unmarshal strict bm bmv (by decide) _ bm_conf
+
+/-! ### observation on bool ELEMENT values (outside the specification text implemented in `Enc.Spec.Thrift`) -/
+-- the specification writes a bool element as `1` / `0`; the reader takes every non-zero byte for true, so element
+-- value 2 (the FALSE code of field headers, which some writers also use for elements) reads as TRUE
+#guard un true (.slice .bool) [0x12, 0x02] == "ok:l 1 b1"
 
 end Witness
 
